@@ -233,7 +233,7 @@ def doTofb (c : Cfg) (t : Int) : String :=
 
 def doDpos (c : Cfg) (tang ax : Int) : String :=
   let (x, y, z) := c.bf.crystal tang ax
-  let mg := c.bf.reff + 1
+  let mg := 4 * c.bf.reff + 600   -- 64·2⁻²⁴·mg = 1.5e-5·R + 2.3e-3 mm: binary32 trigonometry + the rounding of crystal positions to 0.001 mm
   " ".intercalate [fm ⟨x, mg⟩, fm ⟨y, mg⟩, fm ⟨z, mg⟩]
 
 /-- `blor`: ProjDataInfoGeneric::get_LOR / get_s / get_phi / get_m / get_tantheta for the detector coordinates given as data -/
@@ -265,9 +265,9 @@ def doOvl (t : List String) : String :=
     let assignRest := flags.getLast? == some "1"
     let ocq := oc.map parseHex; let icq := ic.map parseHex; let ivq := iv.map parseHex; let ovq := ov.map parseHex
     let nOut := ovq.length; let nIn := ivq.length
-    let res := overlapInterpolateRun (arrOf ocq) (arrOf icq) (arrOf ivq) nOut nIn (arrOf ovq) onlyAdd assignRest
-    let mag := overlapInterpolateRun (arrOf ocq) (arrOf icq) (arrOf (ivq.map absQ)) nOut nIn (arrOf (ovq.map absQ)) onlyAdd assignRest
-    " ".intercalate ((List.range nOut).map fun j => fmq (res.out j) (absQ (mag.out j) + absQ (arrOf ovq j)))
+    let res := overlapInterpolate (arrOf ocq) (arrOf icq) (arrOf ivq) nOut nIn ovq.toArray onlyAdd assignRest
+    let mag := overlapInterpolate (arrOf ocq) (arrOf icq) (arrOf (ivq.map absQ)) nOut nIn (ovq.map absQ).toArray onlyAdd assignRest
+    " ".intercalate ((List.range nOut).map fun j => fmq (getAt res j) (absQ (getAt mag j) + absQ (arrOf ovq j)))
   | _ => "bad"
 
 /-- `arc N Reff imin imax omin omax sampling angular_increment | in…`: ArcCorrection on one row -/
@@ -285,11 +285,10 @@ def doArc (t : List String) : String :=
         floatToRat (reffF * Float.sin ((Float.ofInt (I imin + k) - 0.5) * angF))
       let ocq := arcCorrCoords (I omin) (I omax) sampQ
       let ivq := iv.map parseHex
-      -- (= arcCorrectRow, with the loop run once)
-      let res := overlapInterpolateRun (arrOf ocq) (arrOf icq) (arrOf ivq) nOut nIn (fun _ => 0) false true
-      let mag := overlapInterpolateRun (arrOf ocq) (arrOf icq) (arrOf (ivq.map absQ)) nOut nIn (fun _ => 0) false true
+      let res := arcCorrectRow (arrOf ocq) (arrOf icq) (arrOf ivq) nOut nIn sampQ
+      let mag := arcCorrectRow (arrOf ocq) (arrOf icq) (arrOf (ivq.map absQ)) nOut nIn sampQ
       let maxIn := (ivq.map absQ).foldl max 0
-      " ".intercalate ((List.range nOut).map fun j => fmq (res.out j / sampQ) (absQ (mag.out j / sampQ) + maxIn))
+      " ".intercalate ((List.range nOut).map fun j => fmq (getAt res j) (absQ (getAt mag j) + maxIn))
     | _ => "bad"
   | _ => "bad"
 
